@@ -8,6 +8,15 @@ TB = "Trusted: Go 1.23.5 stdlib, circl v1.3.7, go-hpke, x/crypto, rapid v1.3.0, 
 
 # id -> (technique, level text, design_ref, extra note)
 CLAIMS = {
+ "C01": ("rapid PBT of complete wire runs per token type against independent verification (circl FullEvaluate, crypto/rsa.VerifyPSS) and a byte-level token layout oracle",
+         "Generated honest runs of all four token types in which request and response cross the wire as copied bytes into fresh objects; keys, challenges of any length, nonces, batch sizes (incl. varint-boundary sizes), origin names, client randomness (DRBG seeded from drawn values) and the WithBlind entry points are all drawn. Exploration: the property is a for-all over inputs with a cheap exact oracle.",
+         "DESIGN.md section 4 C01", ""),
+ "C03": ("structure-aware mutation PBT + bounded-exhaustive enumeration (prefixes, short strings, hostile length values x encodings x field offsets) with a panic/allocation/process-death oracle; native go fuzz per target in thorough",
+         "25 byte-consuming entry points (14 decoders, 4 client finalizations, issuer/attester/verification steps) are driven with every prefix of valid messages, every byte string of length <=2, the product of hostile length values with every encoding at every field offset, and rapid-generated structure-aware mutations (field re-framing, splices, length overwrites). Oracle: no panic, TotalAlloc delta <= 8MiB+1024*len, worker survives (in-flight record + fresh-process confirmation for fatal runtime errors). Thorough adds coverage-guided native fuzzing of each target with the same oracle inside.",
+         "DESIGN.md sections 3.3 and 4 C03", "Non-termination is detected only through the test deadline + fresh-process re-run of the in-flight input (300 s)."),
+ "C04": ("rapid PBT against independent reference encoders: round trip, accepted-bytes law on mutated inputs, object-reuse pairs; exhaustive 65536-tag sweep for type separation; Rust interop vectors",
+         "For each of 13 wire structures: values drawn field by field are encoded by a reference encoder written from the TLS structs and compared with pat-go's Marshal and decoder; mutated encodings that a decoder accepts must re-encode no longer, stably, and equal Marshal(); request objects are reused across (previous value, new bytes) pairs; every request decoder sees its body under all 65536 tags. Exploration with an exhaustive tag sub-domain.",
+         "DESIGN.md section 4 C04", "TokenChallenge.OriginInfo is compared through its comma-joined wire form (nil == [\"\"])."),
  "C19": ("bounded-exhaustive enumeration + rapid PBT against an RFC 9000 reference model; native go fuzz differential in thorough",
          "Every value below 2^22 (quick) / 2^30 (thorough) and every byte string of length <=2 / <=3 is enumerated against an independent model of RFC 9000 section 16; boundaries up to 2^62-1, truncations, declared lengths around and far beyond the remaining input (with guard bytes) are generated with rapid. Exploration is the right level: the domain is small and regular enough that enumeration plus boundary generation leaves little room.",
          "DESIGN.md section 4 C19", ""),
